@@ -7,7 +7,8 @@ states the dispatch as decision logic (theorems in `Proofs/C09Call.lean`); this 
 
 Classes (per configuration compiled / interpreted):
   structures and unions with the field lists  [], [char], [char[n]], [char : 8], [uint8], [uint8[n]], [char[n], uint8],
-  [uint8, char[n]], [char[n], char[m]], [wchar[n]], a nested structure first; built by one `load`, or incrementally (created
+  [uint8, char[n]], [char[n], char[m]], [wchar[n]], a nested structure first, a single member placed at an explicit offset
+  through the API (`Field(.., offset=k)`); built by one `load`, or incrementally (created
   with the first field - or empty - and extended by add_field / start_update, so that the class passed through the one-field
   state); the scalar and array classes cs.char, cs.char[n], cs.uint8, cs.uint8[n], cs.wchar, cs.wchar[n] (enum and flag
   classes have a dispatch of their own, `EnumMetaType.__call__`, which is not part of this model).
@@ -79,7 +80,7 @@ def _describe(cls):
         for f in fs:
             t = f.type
             fields.append([1 if (isinstance(t, type) and issubclass(t, bytes)) else 0, 1 if f.bits else 0,
-                           A("none") if getattr(t, "size", None) is None else int(t.size)])
+                           A("none") if getattr(t, "size", None) is None else int(t.size), 1 if f.offset else 0])
     size = getattr(cls, "size", None)
     return [A("cls"), 1 if issubclass(cls, bytes) else 0, A("none") if size is None else int(size), fields], fs is not None
 
@@ -192,6 +193,22 @@ def run(env, res, rnd):
                     except Exception as e:  # noqa: BLE001 - a shape the library refuses (bit-fields in unions are accepted; report anything else)
                         res.violations.append(Case("property", f"definition rejected: {type(e).__name__}: {e}",
                                                    {"kind": kind, "shape": shape, "how": how, "compiled": compiled}))
+    # members placed at an explicit offset through the API (fix F86: the shortcut is not taken for a placed member)
+    for compiled in (False, True):
+        for off in (0, 2):
+            for ft in ("char[4]", "char", "uint8"):
+                cs = m.cstruct()
+                try:
+                    from dissect.cstruct.types.structure import Field
+                    base = cs.char if ft.startswith("char") else cs.uint8
+                    t = base[4] if ft.endswith("]") else base
+                    T = cs._make_struct("T", [Field("a", t, offset=off)])
+                    if compiled:
+                        import importlib
+                        T = importlib.import_module("dissect.cstruct.compiler").compile(T)
+                    classes.append((f"_make_struct T {{{ft} a @ offset {off}}} [compiled={compiled}]", T, False))
+                except Exception as e:  # noqa: BLE001
+                    res.violations.append(Case("property", f"API construction rejected: {type(e).__name__}: {e}", {"field": ft, "offset": off}))
     cs = m.cstruct()
     for name, t in (("char", cs.char), ("char[4]", cs.char[4]), ("uint8", cs.uint8), ("uint8[4]", cs.uint8[4]), ("wchar", cs.wchar),
                     ("wchar[2]", cs.wchar[2]), ("uint32", cs.uint32)):
